@@ -411,6 +411,19 @@ htp_status_t htp_mpartp_parse_header(htp_multipart_part_t *part, const unsigned 
     // Check if the header already exists.
     htp_header_t * h_existing = htp_table_get(part->headers, h->name);
     if (h_existing != NULL) {
+        // Keep track of same-name headers.
+        h_existing->flags |= HTP_MULTIPART_PART_HEADER_REPEATED;
+        part->parser->multipart.flags |= HTP_MULTIPART_PART_HEADER_REPEATED;
+
+        // As for message headers, what is assembled from repeated
+        // fields is bounded; beyond that the repetition is only noted.
+        if (bstr_len(h_existing->value) >= HTP_MAX_HEADER_FOLDED) {
+            bstr_free(h->name);
+            bstr_free(h->value);
+            free(h);
+            return HTP_OK;
+        }
+
         // Add to the existing header.
         bstr *new_value = bstr_expand(h_existing->value, bstr_len(h_existing->value)
                 + 2 + bstr_len(h->value));
@@ -429,11 +442,17 @@ htp_status_t htp_mpartp_parse_header(htp_multipart_part_t *part, const unsigned 
         bstr_free(h->name);
         bstr_free(h->value);
         free(h);
-
-        // Keep track of same-name headers.
-        h_existing->flags |= HTP_MULTIPART_PART_HEADER_REPEATED;
-        part->parser->multipart.flags |= HTP_MULTIPART_PART_HEADER_REPEATED;
     } else {
+        // The number of different headers of one part is bounded, as for
+        // a message (each new one is looked up among all earlier ones).
+        if (htp_table_size(part->headers) >= HTP_MAX_HEADERS_NUMBER) {
+            part->parser->multipart.flags |= HTP_MULTIPART_PART_HEADER_INVALID;
+            bstr_free(h->value);
+            bstr_free(h->name);
+            free(h);
+            return HTP_DECLINED;
+        }
+
         // Add as a new header.
         if (htp_table_add(part->headers, h->name, h) != HTP_OK) {
             bstr_free(h->value);
@@ -724,12 +743,17 @@ htp_status_t htp_mpart_part_handle_data(htp_multipart_part_t *part, const unsign
                 } else {
                     // Is this a folded line?
                     if (isspace(data[0])) {
-                        // Folding; add to the existing line.
+                        // Folding; add to the existing line (up to the
+                        // length a folded message header may reach).
                         part->parser->multipart.flags |= HTP_MULTIPART_PART_HEADER_FOLDING;
-                        part->parser->pending_header_line = bstr_add_mem(part->parser->pending_header_line, data, len);
-                        if (part->parser->pending_header_line == NULL) {
-                            bstr_free(line);
-                            return HTP_ERROR;
+                        if (bstr_len(part->parser->pending_header_line) < HTP_MAX_HEADER_FOLDED) {
+                            part->parser->pending_header_line = bstr_add_mem(part->parser->pending_header_line, data, len);
+                            if (part->parser->pending_header_line == NULL) {
+                                bstr_free(line);
+                                return HTP_ERROR;
+                            }
+                        } else {
+                            part->parser->multipart.flags |= HTP_MULTIPART_PART_HEADER_INVALID;
                         }
                     } else {
                         // Process the pending header line.                        
